@@ -59,7 +59,14 @@ class C01(core.Check):
         self.primer(res)
         rng = random.Random(self.seed * 104729 + 5)
         for _ in range(self.budget(100, 800, boost)):
-            sess = engcorr.gen_session(rng, max_n=120, tight=rng.random() < 0.4, vol=rng.choice([4, 8]), watch=rng.random() < 0.25)
+            if rng.random() < 0.25:
+                # isolated margin at leverage 50..125 on wide minutes: forced closes (and the hooks they fire) are events too,
+                # and in the fast simulator they happen at the END of a chunk — their clock must say so
+                sess = engcorr.gen_session(rng, max_n=120, vol=rng.choice([8, 16]), kinds=('futures',), isolated=True,
+                                           leverage=rng.choice([50, 100, 125]), force={'kind': 'market'})
+                res.count('pairs-with-isolated-high-leverage')
+            else:
+                sess = engcorr.gen_session(rng, max_n=120, tight=rng.random() < 0.4, vol=rng.choice([4, 8]), watch=rng.random() < 0.25)
             if rng.random() < 0.35:
                 sess['warmup'] = 720        # half a day of injected warm-up candles (a multiple of every timeframe used)
                 res.count('pairs-with-warm-up')
